@@ -1412,9 +1412,58 @@ fn parse_vars(exprs: &[&Vec<SExpr>], _lsp_hints: &mut LspHints) -> Result<HashMa
             if vars.insert(var_name.into(), var_expr).is_some() {
                 bail_expr!(var_name_expr, "duplicate variable name: {}", var_name);
             }
+            // Must be checked before the next value is read: `concat` substitutes eagerly.
+            check_vars_are_not_cyclic(&vars)?;
         }
     }
     Ok(vars)
+}
+
+/// Variables are substituted lazily, wherever they are used. A variable whose value refers back to
+/// itself, directly or through other variables, would be substituted forever.
+fn check_vars_are_not_cyclic(vars: &HashMap<String, SExpr>) -> Result<()> {
+    fn collect_refs<'a>(expr: &'a SExpr, vars: &HashMap<String, SExpr>, refs: &mut Vec<&'a str>) {
+        match expr {
+            SExpr::Atom(a) => {
+                if let Some(name) = a.t.strip_prefix('$') {
+                    if vars.contains_key(name) {
+                        refs.push(name);
+                    }
+                }
+            }
+            SExpr::List(l) => l.t.iter().for_each(|e| collect_refs(e, vars, refs)),
+        }
+    }
+    // Iterative depth-first search; `done` are variables known not to reach a cycle.
+    let mut done: HashSet<&str> = HashSet::default();
+    for start in vars.keys() {
+        let mut path: Vec<(&str, Vec<&str>)> = vec![];
+        let mut refs = vec![];
+        collect_refs(&vars[start], vars, &mut refs);
+        path.push((start.as_str(), refs));
+        while let Some((name, refs)) = path.last_mut() {
+            let name = *name;
+            match refs.pop() {
+                None => {
+                    done.insert(name);
+                    path.pop();
+                }
+                Some(next) if done.contains(next) => {}
+                Some(next) => {
+                    if next == name || path.iter().any(|(n, _)| *n == next) {
+                        bail_expr!(
+                            &vars[next],
+                            "variable {next} is defined in terms of itself"
+                        );
+                    }
+                    let mut refs = vec![];
+                    collect_refs(&vars[next], vars, &mut refs);
+                    path.push((next, refs));
+                }
+            }
+        }
+    }
+    Ok(())
 }
 
 fn parse_list_var(expr: &Spanned<Vec<SExpr>>, vars: &HashMap<String, SExpr>) -> SExpr {
